@@ -274,6 +274,44 @@ fn directed_size_pairs(out: &mut Out, s: &Setup, r: &mut Rng) {
     }
 }
 
+/// Squares of ciphertexts of EVERY size 2..=5 (unrelinearised products as operands), first level and one level down: `square(x)` against
+/// the model's product of x with itself bit for bit (`ct_op square`, N <= 16) and against the exact phase relation phase(res) = phase(x)^2
+/// (BGV: no rounding), and — whatever the degree — against `multiply(x, x)`: both are the canonical residues of the same ring element
+/// sum_{i+j=k} c_i c_j for BGV; for BFV the decrypted values are compared where the budget allows.
+fn directed_squares(out: &mut Out, s: &Setup, r: &mut Rng) {
+    let (n, t) = (s.n, s.t); let ev = &s.evaluator;
+    let nlev = s.levels().len();
+    for down in 0..nlev.min(2) {
+        let built = std::panic::catch_unwind(std::panic::AssertUnwindSafe(|| {
+            let mut v: Vec<(Ciphertext, Vec<u64>)> = vec![];
+            let fresh = |r: &mut Rng| -> (Ciphertext, Vec<u64>) { let m = rand_msg(r, n, t); let mut c = s.encryptor.encrypt_new(&plain_of(&m)); for _ in 0..down { c = ev.mod_switch_to_next_new(&c); } (c, m) };
+            let (mut acc, mut macc) = fresh(r);
+            v.push((acc.clone(), macc.clone()));
+            for _ in 0..3 { let (z, mz) = fresh(r); acc = ev.multiply_new(&acc, &z); macc = shadow_mul(&macc, &mz, t); v.push((acc.clone(), macc.clone())); }
+            v }));
+        let ops = match built { Ok(v) => v, Err(_) => continue };
+        for (x, mx) in &ops {
+            let sz = x.size();
+            let sq = match std::panic::catch_unwind(std::panic::AssertUnwindSafe(|| ev.square_new(x))) { Ok(c) => c, Err(_) => { out.raw(&format!("!FAIL square_sizes {} size{} l{} :: square of a valid ciphertext (result size {} <= 16) refused # sq-size{}", scheme_name(s.scheme), sz, down, 2 * sz - 1, sz)); continue } };
+            let mm = match std::panic::catch_unwind(std::panic::AssertUnwindSafe(|| ev.multiply_new(x, x))) { Ok(c) => c, Err(_) => continue };
+            let cls = format!("sq-{}-size{}-l{}", scheme_name(s.scheme), sz, down);
+            if s.scheme == SchemeType::BGV {
+                if sq.data() == mm.data() && sq.size() == mm.size() && sq.correction_factor() == mm.correction_factor() && sq.parms_id() == mm.parms_id() { out.raw(&format!("!OK square_sizes bgv size{} l{} square = multiply(x,x) # {}", sz, down, cls)); }
+                else { out.raw(&format!("!FAIL square_sizes bgv size{} l{} :: square(x) differs from multiply(x, x) (sizes {} / {}, factors {} / {}): the residues of sum c_i c_j are unique # {}", sz, down, sq.size(), mm.size(), sq.correction_factor(), mm.correction_factor(), cls)); }
+            }
+            if n <= 16 { out.case(&format!("ct_op square 0 0 0 | {} | {} | {}", s.ct_case(x), s.ct_case(x), s.ct_case(&sq)), &format!("op-{}", cls), || "ok".to_string()); }
+            // decrypted value against the shadow program where the budget of the result allows a claim
+            let want = shadow_mul(mx, mx, t);
+            let pred = (lib_budget(s, &mm).min(lib_budget(s, &sq)) - 2.0).floor().max(-1.0) as i64;
+            let view = |c: &Ciphertext| if s.scheme == SchemeType::BFV && c.is_ntt_form() { ev.transform_from_ntt_new(c) } else { c.clone() };
+            let v = view(&sq);
+            // (the prediction uses the budget of multiply(x, x): if THAT product still decrypts, the square must decrypt to the same value)
+            let dm = s.dec_str(&view(&mm));
+            if dm == fl(&trim(&want)) && lib_budget(s, &mm) >= 3.0 { out.case(&format!("prog {} {} {}", s.ct_case(&v), pred.max(4), fl(&trim(&want))), &format!("prog-{}", cls), || s.dec_str(&v)); }
+        }
+    }
+}
+
 /// Relinearisation at EVERY level of the chain, in both orders (multiply -> switch down -> relinearize; switch down -> square -> relinearize):
 /// below the first level the key-switching routine works with a proper prefix of the key-level primes plus the special prime
 fn directed_relin_levels(out: &mut Out, s: &Setup, r: &mut Rng) {
@@ -330,6 +368,7 @@ pub fn run(out: &mut Out, thorough: bool, seed: u64, _extra: &[String]) {
         directed_plain_cases(out, &s, &mut r);
         if thorough || pi < 10 { directed_size_pairs(out, &s, &mut r); }
         if thorough || pi < 10 { directed_relin_levels(out, &s, &mut r); }
+        if thorough || pi < 10 { directed_squares(out, &s, &mut r); }
         let mut prog = Prog::new(&s, &mut r, 3);
         let mut done = 0; let mut tries = 0;
         while done < steps && tries < steps * 6 {
